@@ -293,7 +293,7 @@ class Check:
                 if crash2 and crash2[0] == crash[0]:
                     self.violation('crash:' + crash[0], 'the library panicked while the check was driving it (%s mode %s): %s' % (os.path.basename(binary).split('-')[0], mode, crash[1]),
                                    {'mode': mode, 'stderr': se[-3000:]})
-                    return {'executed': 0, 'completed': 0, 'nontrivial': 0, 'violations': [], 'drifts': [], 'samples': [], 'counters': {}, 'extra': {}}
+                    raise Inconclusive('the library crashed the harness process (%s); recorded as a violation' % crash[0])
                 if rc2 == 0 and os.path.exists(op):
                     self.notes.append('harness %s crashed once in library code (%s) and passed on re-execution' % (mode, crash[0]))
                     with open(op) as fh:
